@@ -3,6 +3,7 @@
 package websocket
 
 import (
+	"bufio"
 	"context"
 	"crypto/rand"
 	"crypto/tls"
@@ -694,4 +695,108 @@ func vfHostNoPort(host string) string {
 func vfH_dial_reply() {
 	vfH_dial_logic()
 	vfReach("dial-reply-end")
+}
+
+// vfH_negotiate (C15.H1): a Dialer and an Upgrader joined through their header
+// maps: the request object the client hands to net/http becomes the server's
+// request (keys canonicalised as net/http's server does), the server's 101
+// bytes become the client's reply. Either both endpoints compress or neither.
+func vfH_negotiate() {
+	vfInit()
+	vfClockMaxStep(int64(writeWait))
+	vfReqLog, vfRespQueue = nil, nil
+	rand.Reader = &vfRand{}
+	dE := vfChoose(2) == 1
+	uE := vfChoose(2) == 1
+	d := &Dialer{EnableCompression: dE}
+	u := &Upgrader{EnableCompression: uE}
+	urlStr := "ws://example.com/x"
+	vfHintURL(urlStr, &vfURLParts{scheme: "ws", host: "example.com", path: "/x"})
+	ct := vfNewConn(nil) // client's transport
+	st := vfNewConn(nil) // server's (hijacked) transport
+	d.NetDialContext = func(ctx context.Context, network, addr string) (net.Conn, error) { return ct, nil }
+	var sc *Conn
+	var serr error
+	spec := &vfRespSpec{header: http.Header{}}
+	vfRespQueue = append(vfRespQueue, spec)
+	vfOnRequest = func(r *http.Request) {
+		// the server side: net/http delivers canonical header keys
+		sh := http.Header{}
+		for k, vs := range r.Header {
+			sh[http.CanonicalHeaderKey(k)] = vs
+		}
+		sr := &http.Request{Method: r.Method, Host: r.Host, Header: sh}
+		rw := &vfRW{conn: st, br: bufio.NewReaderSize(st, 4096), bw: bufio.NewWriterSize(st, 4096)}
+		sc, serr = u.Upgrade(rw, sr, nil)
+		if serr != nil {
+			spec.status, spec.statusCode = "400 Bad Request", 400
+			head := []byte("HTTP/1.1 400 Bad Request\r\n\r\n")
+			spec.headLen = len(head)
+			ct.in = append(ct.in, head...)
+			ct.cut = len(ct.in)
+			return
+		}
+		head := st.wire()
+		lines, ok := specSplitHead(head)
+		vfAssert(ok && len(lines) > 0, "c12-101-wellformed-head")
+		spec.status, spec.statusCode = lines[0][9:], 101
+		for _, l := range lines[1:] {
+			i := strings.Index(l, ": ")
+			vfAssert(i > 0, "c12-101-wellformed-head")
+			k := http.CanonicalHeaderKey(l[:i])
+			spec.header[k] = append(spec.header[k], l[i+2:])
+		}
+		spec.headLen = len(head)
+		ct.in = append(ct.in, head...)
+		ct.cut = len(ct.in)
+	}
+	cc, _, cerr := d.DialContext(&vfCtx{}, urlStr, nil)
+	vfOnRequest = nil
+	vfAssert(cerr == nil && cc != nil && serr == nil && sc != nil, "c15-handshake-succeeds-for-every-setting-pair")
+	both := dE && uE
+	vfAssert((cc.newCompressionWriter != nil) == both && (cc.newDecompressionReader != nil) == both, "c15-client-compresses-iff-both-enabled")
+	vfAssert((sc.newCompressionWriter != nil) == both && (sc.newDecompressionReader != nil) == both, "c15-server-compresses-iff-both-enabled")
+	ann := false
+	for _, l := range spec.header["Sec-Websocket-Extensions"] {
+		if strings.Contains(l, "permessage-deflate") {
+			ann = strings.Contains(l, "server_no_context_takeover") && strings.Contains(l, "client_no_context_takeover")
+		}
+	}
+	vfAssert(ann == both, "c15-compression-only-when-101-announces-both-parameters")
+	// messages flow in both directions (the client's writes arrive at the server and back)
+	nw0 := ct.nWrites()
+	data := vfBytes(5)
+	orig := append([]byte(nil), data...)
+	vfAssert(cc.WriteMessage(TextMessage, data) == nil, "write-accepted")
+	var c2s []byte
+	for i, op := range ct.ops {
+		_ = i
+		if op.kind == vfOpWrite {
+			c2s = append(c2s, op.data...)
+		}
+	}
+	// skip the request head the client wrote first
+	skip := 0
+	k := 0
+	for _, op := range ct.ops {
+		if op.kind == vfOpWrite {
+			if k < nw0 {
+				skip += len(op.data)
+			}
+			k++
+		}
+	}
+	st.in = append(st.in, c2s[skip:]...)
+	st.cut = len(st.in)
+	mt, p, rerr := sc.ReadMessage()
+	vfAssert(rerr == nil && mt == TextMessage && len(p) == len(orig) && vfAllEq(p, orig), "c15-client-to-server-message-decodes")
+	sw0 := len(st.wire())
+	d2 := vfBytes(40)
+	o2 := append([]byte(nil), d2...)
+	vfAssert(sc.WriteMessage(BinaryMessage, d2) == nil, "write-accepted")
+	ct.in = append(ct.in, st.wire()[sw0:]...)
+	ct.cut = len(ct.in)
+	mt, p, rerr = cc.ReadMessage()
+	vfAssert(rerr == nil && mt == BinaryMessage && len(p) == len(o2) && vfAllEq(p, o2), "c15-server-to-client-message-decodes")
+	vfReach("negotiate-end")
 }
